@@ -41,7 +41,9 @@ Inductive move :=
 | PutBase                  (* yield callback: the saved thread goes to the base of the own queue *)
 | PushTop (x : nat)        (* wake: a saved (blocked) thread goes to the top of the own queue *)
 | EndCb                    (* the callback returns into the hand (or the scheduler) *)
-| RunHand.                 (* the scheduler switches to the thread in its hand *)
+| RunHand                  (* the scheduler switches to the thread in its hand *)
+| PassBase (v : nat).      (* work-stealing API: a running thread hands the thread it has popped / taken to the
+                              base of worker v's run queue (myth_wsapi_runqueue_pass) *)
 
 Fixpoint upd {A} (l : list A) (i : nat) (x : A) : list A :=
   match l, i with
@@ -156,6 +158,11 @@ Definition mmove (s : mstate) (w : nat) (m : move) : option mstate :=
         match cw, hw with
         | Sched, Some n => Some (set_hand (set_cur s w (Run n)) w None)
         | _, _ => None
+        end
+    | PassBase v =>
+        match cw, hw, nth_error (dq s) v with
+        | Run _, Some x, Some qv => Some (set_dq (set_hand s w None) v (x :: qv))
+        | _, _, _ => None
         end
     end
   | _, _, _ => None
